@@ -22,7 +22,9 @@ correspondence only and is labelled *support*):
   and image, and of the two array helpers of the segmentation constructor, **as extracted from the current source**
   (`Generated/T20alias_*.lean`, 64 programs): under every valuation of the conditions the code branches on, and
   whatever a write does to the regions it hits, the caller's objects keep their content unless in-place conversion
-  was asked for, a copying conversion returns a newly allocated object, a non-copying one the very object it was given.
+  was asked for, a copying conversion returns a newly allocated object, a non-copying one the very object it was given;
+* `constructors_never_write_arguments`: the same for the `__init__` of every public class (116 programs): no constructor
+  writes (a part of) an argument.
 -/
 namespace HdVerif.C20
 open HdVerif HdVerif.VR HdVerif.Gen
@@ -333,18 +335,18 @@ object, not the original or a part of it. -/
 theorem copy_leaves_original (e : Entry) (he : e ∈ allEntries) (hc : e.hasCopy = true)
     (v : Nat) (hv : v.testBit 0 = true) (w : Nat → Nat → Nat) (store : Nat → Nat) :
     (∀ r, r < e.nIn → (run e.prog e.nIn v w store).store r = store r) ∧
-    (∀ ref, (run e.prog e.nIn v w store).result = some ref → e.nIn ≤ ref.region) := by
+    (∀ ref, (run e.prog e.nIn v w store).result = some ref → ∀ k ∈ ref.regions, e.nIn ≤ k) := by
   have h := List.all_eq_true.mp table_copy e he
   simp only [hc, Bool.not_true, Bool.false_or] at h
   exact copyLeavesOriginal_sound e (wf he).1 (wf he).2 h v hv w store
 
 /-- **nocopy_returns_same.**  For every converter with a `copy` parameter, called with `copy=False`: whatever it returns
-is the very object that was passed in (region 0, the root itself, not a view).  Full statement: for *every* such
+is the very object that was passed in (exactly region 0, the root itself, not a view or a may-alias).  Full statement: for *every* such
 converter.  Proved for all but `ContentSequence.from_sequence` and `MeasurementReport.from_sequence`, which return a new container
 holding the caller's items converted in place (`nocopy_content_sequence_rebuilds`); the correspondence checks item identity for it. -/
 theorem nocopy_returns_same (e : Entry) (he : e ∈ allEntries) (hc : e.hasCopy = true) (hq : rebuildsContainer e = false)
     (v : Nat) (hv : v.testBit 0 = false) (w : Nat → Nat → Nat) (store : Nat → Nat)
-    (ref : Ref) (href : (run e.prog e.nIn v w store).result = some ref) : ref = ⟨0, true⟩ := by
+    (ref : Ref) (href : (run e.prog e.nIn v w store).result = some ref) : ref = ⟨[0], true⟩ := by
   have h := List.all_eq_true.mp table_nocopy e he
   simp only [hc, hq, Bool.not_true, Bool.false_or] at h
   exact nocopyReturnsSame_sound e (wf he).1 h v hv w store ref href
@@ -352,7 +354,7 @@ theorem nocopy_returns_same (e : Entry) (he : e ∈ allEntries) (hc : e.hasCopy 
 /-- the excluded converter really is different: with `copy=False` it returns a newly allocated container … -/
 theorem nocopy_content_sequence_rebuilds :
     ∃ e ∈ allEntries, rebuildsContainer e = true ∧
-      ((summary e.prog e.nIn 0).2.1.map fun r => decide (e.nIn ≤ r.region)) = some true := by
+      ((summary e.prog e.nIn 0).2.1.map fun r => r.regions.all fun k => decide (e.nIn ≤ k)) = some true := by
   decide +kernel
 
 /-- … and with `copy=True` it still leaves the caller's sequence and items untouched (instance of `copy_leaves_original`) -/
@@ -370,13 +372,48 @@ theorem seg_pixel_array_never_written (e : Entry) (he : e ∈ alias_seg_sop) (hc
     (run e.prog e.nIn v w store).store r = store r :=
   inputs_never_written e (by simp [allEntries, he]) hc v w store r hr
 
+/-! ### constructors -/
+
+/-- every `__init__` of base, content, seg, pm, sc, sr, ko, ann, pr, legacy was abstracted -/
+theorem ctor_extraction_complete : allCtorSkipped = [] ∧ 100 ≤ allCtors.length := by decide +kernel
+
+private theorem ctor_wellformed :
+    (allCtors.all fun e => condsBelowList e.nCond e.prog && decide (0 < e.nCond)) = true := by decide +kernel
+
+private theorem table_ctor : (allCtors.all neverWritesInputs) = true := by decide +kernel
+
+/-- **constructors_never_write_arguments** (the first clause of C20 for constructors).  For every `__init__` of the package's
+public classes — `SOPClass`, `Segmentation`, `ParametricMap`, `SCImage`, the SR / KO / ANN / PR / legacy SOP classes, every
+content item, template and shared content class; 116 programs regenerated from the source — in every run (any valuation of
+the conditions the constructor branches on, any effect of its writes) each argument region `r < nIn` ends with the content it
+started with: the constructor assigns to `self` and to objects it allocated, never to (a part of) what it was given.
+For constructors with more than 2^5 paths (marked `(arms merged)`, 15 of them) the arms of branches are merged (weak update at
+the join) instead of enumerated — a coarser but still sound abstraction of the same code. -/
+theorem constructors_never_write_arguments (e : Entry) (he : e ∈ allCtors)
+    (v : Nat) (w : Nat → Nat → Nat) (store : Nat → Nat) (r : Nat) (hr : r < e.nIn) :
+    (run e.prog e.nIn v w store).store r = store r := by
+  have hw := List.all_eq_true.mp ctor_wellformed e he
+  simp only [Bool.and_eq_true, decide_eq_true_eq] at hw
+  exact neverWritesInputs_sound e hw.1 (List.all_eq_true.mp table_ctor e he) v w store r hr
+
+example : (allCtors.map (·.name)).contains "Segmentation.__init__ (arms merged)" = true := by decide
+/-- the two constructor defects repaired in /repo are rejected by the check: writing an attribute of an item of an argument
+(`ImageLibraryEntryDescriptors`), and writing through a variable that may still be the argument (`Segmentation`) -/
+example : neverWritesInputs ⟨"alters the items it is given", 1, 2, false,
+    [.assign 1 .fresh, .ite 1 [.assign 2 (.view 1 (.var 0)), .write (.var 2), .write (.var 1), .link (.var 1) 1 (.var 2)] []]⟩
+    = false := by decide
+example : neverWritesInputs ⟨"writes into the argument unless it was None", 1, 2, false,
+    [.ite 1 [.assign 0 .fresh] [], .write (.view 1 (.var 0))]⟩ = false := by decide
+example : neverWritesInputs ⟨"writes into a copy", 1, 2, false,
+    [.ite 1 [.assign 0 .fresh] [], .assign 0 .fresh, .write (.view 1 (.var 0))]⟩ = true := by decide
+
 /-! non-vacuity: the tables contain the programs the theorems are meant for, and the checks can fail -/
 example : (allEntries.filter (·.hasCopy)).length ≥ 40 := by decide
 example : (alias_seg_sop.map (·.name)).contains "Segmentation._get_segment_pixel_array" = true := by decide
 /-- the defect that was repaired in /repo (`segment_array *= max_fractional_value` on a plane that aliases the caller's
 array) is rejected by the very check used above -/
 example : neverWritesInputs ⟨"in-place scaling", 1, 2, false,
-    [.assign 1 (.view (.var 0)), .ite 1 [.write (.var 1)] [], .ret (.var 1)]⟩ = false := by decide
+    [.assign 1 (.view 1 (.var 0)), .ite 1 [.write (.var 1)] [], .ret (.var 1)]⟩ = false := by decide
 /-- so is the `LUT.from_dataset` shape that re-bound the original after copying it -/
 example : copyLeavesOriginal ⟨"rebinding", 2, 1, true,
     [.ite 0 [.assign 2 .fresh] [.assign 2 (.var 0)], .assign 2 (.var 0), .write (.var 2), .ret (.var 2)]⟩ = false := by decide
@@ -385,7 +422,12 @@ example : nocopyReturnsSame ⟨"always copies", 2, 1, true, [.assign 2 .fresh, .
   decide
 /-- deep conversion through a link reaches the original (the `_SR.from_dataset` defect) -/
 example : copyLeavesOriginal ⟨"content taken from the original", 2, 1, true,
-    [.ite 0 [.assign 2 .fresh] [.assign 2 (.var 0)], .assign 3 .fresh, .write (.var 3), .link (.var 3) (.view (.var 0)),
+    [.ite 0 [.assign 2 .fresh] [.assign 2 (.var 0)], .assign 3 .fresh, .write (.var 3), .link (.var 3) 5 (.view 5 (.var 0)),
      .writeDeep (.var 3), .ret (.var 2)]⟩ = false := by decide
+/-- a shallow write through an attribute reaches what was stored under that attribute (and nothing stored elsewhere) -/
+example : neverWritesInputs ⟨"append to the caller's list through self", 1, 1, false,
+    [.assign 1 .fresh, .write (.var 1), .link (.var 1) 5 (.var 0), .write (.view 5 (.var 1))]⟩ = false := by decide
+example : neverWritesInputs ⟨"append to another attribute", 1, 1, false,
+    [.assign 1 .fresh, .write (.var 1), .link (.var 1) 5 (.var 0), .write (.view 6 (.var 1))]⟩ = true := by decide
 
 end HdVerif.C20
